@@ -28,6 +28,11 @@ func c10LanguageKept(ctx *core.Ctx, cur *peg.Grammar) {
 	refPath := filepath.Join(ctx.VerifDir, "reference", "grammar.peg")
 	src, err := os.ReadFile(refPath)
 	if err != nil {
+		// a scratch evidence directory (seed / refactor replays): the reference lives with the checker
+		refPath = "/verif/reference/grammar.peg"
+		src, err = os.ReadFile(refPath)
+	}
+	if err != nil {
 		ctx.Undecided("C10.R16", "reference grammar", "", "cannot read "+refPath+": "+err.Error())
 		return
 	}
